@@ -33,7 +33,8 @@ Inductive error :=
 | ErrAddrs             (* Interface.Addrs() failed *)
 | ErrAddrType          (* addrs[0] is not a *net.IPNet *)
 | ErrInterfaces        (* net.Interfaces() / interfaceTable failed *)
-| ErrRoutes.           (* netlink.RouteList failed *)
+| ErrRoutes            (* netlink.RouteList failed *)
+| ErrTarget.           (* ip.ErrInvalidAddr "invalid IP subnet/host": ip.ParseIPNet refused the target *)
 
 Inductive result (A : Type) := Ok (a : A) | Err (e : error).
 Arguments Ok {A} a.
@@ -337,3 +338,51 @@ Definition choose_arp_orig := choose_arp_gen false.
 
 (* gateway used by getGatewayMAC when --gwmac is absent and the scan is not in VPN mode *)
 Definition gateway_of (cfg : config) (o : outcome) : result ip := get_default_gateway_ip cfg (o_iface o).
+
+(* ------------------------------------------------------------------ the target argument (pkg/ip ParseIPNet)
+
+   What Go's parsers make of the positional argument is an INPUT (net.ParseCIDR and netip.ParseAddr
+   are not modelled); what ParseIPNet decides on it is modelled: only an IPv4 CIDR block (4-byte
+   mask; the IPv4-mapped IPv6 form has a 16-byte mask) or an IPv4 host address (netip Is4, false
+   for every IPv6 notation incl. IPv4-mapped and zoned ones) is a target, everything else is
+   ErrInvalidAddr. *)
+Inductive target_text :=
+| TxtCIDR (ipb maskb : ip)          (* net.ParseCIDR succeeded: result.IP, result.Mask *)
+| TxtAddr (is4 : bool) (addr : ip)  (* ParseCIDR failed, netip.ParseAddr succeeded: Is4(), AsSlice() *)
+| TxtJunk.                          (* neither parses *)
+
+Definition parse_ipnet (x : target_text) : result target :=
+  match x with
+  | TxtCIDR ipb maskb => if len maskb =? 4 then Ok {| t_ip := ipb; t_mask := maskb |} else Err ErrTarget
+  | TxtAddr true addr => Ok {| t_ip := addr; t_mask := [255; 255; 255; 255] |}
+  | TxtAddr false _ => Err ErrTarget
+  | TxtJunk => Err ErrTarget
+  end.
+
+(* a whole command line: the positional argument (None = absent, targets come from a file) and the
+   three flags.  The ip-level commands look --iface up first (parseRawOptions) and parse the target
+   inside parseOptions; the arp command parses the target before anything else. *)
+Definition run_gen (strict : bool) (cfg : config) (x : option target_text) (ov : overrides) : result outcome :=
+  match x with
+  | None => choose_gen strict cfg None ov
+  | Some x =>
+      match resolve_iface cfg ov with
+      | Err e => Err e
+      | Ok _ => match parse_ipnet x with
+                | Err e => Err e
+                | Ok t => choose_gen strict cfg (Some t) ov
+                end
+      end
+  end.
+
+Definition run_arp_gen (strict : bool) (cfg : config) (x : option target_text) (ov : overrides) : result outcome :=
+  match x with
+  | None => choose_arp_gen strict cfg None ov
+  | Some x => match parse_ipnet x with
+              | Err e => Err e
+              | Ok t => choose_arp_gen strict cfg (Some t) ov
+              end
+  end.
+
+Definition run := run_gen true.
+Definition run_arp := run_arp_gen true.
